@@ -937,6 +937,51 @@ func sliceValidatedBefore(slice ssa.Value, at ssa.Instruction) bool {
 		if !IsNilConst(cy) {
 			return
 		}
+		// for _, d := range xs { if err := validate(d); err != nil { return } }: the element is
+		// tested by a helper that fails on nil; the test we look at is the one of its error
+		if isErrType(cx.Type()) && InLoop(b) {
+			var call *ssa.Call
+			switch v := ValueOrigin(cx).(type) {
+			case *ssa.Call:
+				call = v
+			case *ssa.Extract:
+				call, _ = v.Tuple.(*ssa.Call)
+			}
+			if call == nil || call.Call.StaticCallee() == nil || call.Call.StaticCallee().Blocks == nil || bo.Referrers() == nil {
+				return
+			}
+			callee := call.Call.StaticCallee()
+			elemChecked := false
+			for i, a := range call.Call.Args {
+				if ld, ok := a.(*ssa.UnOp); ok && ld.Op == token.MUL && i < len(callee.Params) {
+					if ia, ok := ld.X.(*ssa.IndexAddr); ok && ValueOrigin(ia.X) == root && failsOnNilParam(callee, callee.Params[i]) {
+						elemChecked = true
+					}
+				}
+			}
+			if !elemChecked {
+				return
+			}
+			for _, ref := range *bo.Referrers() {
+				ifi, isIf := ref.(*ssa.If)
+				if !isIf {
+					continue
+				}
+				errSucc := ifi.Block().Succs[0] // err != nil
+				if bo.Op == token.EQL {
+					errSucc = ifi.Block().Succs[1]
+				}
+				if ReachableFrom(errSucc)[b] {
+					continue // the failing branch goes on with the loop
+				}
+				for d := b; d != nil; d = d.Idom() {
+					if d.Dominates(at.Block()) && ReachableFrom(b)[d] && !ReachableFrom(at.Block())[b] {
+						ok = true
+					}
+				}
+			}
+			return
+		}
 		ld, isLd := cx.(*ssa.UnOp)
 		if !isLd || ld.Op != token.MUL {
 			return
@@ -1025,6 +1070,53 @@ func failsOnNilElem(fn *ssa.Function, par *ssa.Parameter) bool {
 				}
 			}
 			if allFail && n > 0 {
+				found = true
+			}
+		}
+	})
+	return found
+}
+
+// failsOnNilParam: on the branch on which its pointer parameter par is nil, fn only reaches
+// returns that carry a non-nil error.
+func failsOnNilParam(fn *ssa.Function, par *ssa.Parameter) bool {
+	found := false
+	Instrs(fn, func(b *ssa.BasicBlock, _ int, ins ssa.Instruction) {
+		bo, isB := ins.(*ssa.BinOp)
+		if !isB || (bo.Op != token.EQL && bo.Op != token.NEQ) || bo.Referrers() == nil {
+			return
+		}
+		_, cx, cy, _ := BinCmp(bo)
+		if !IsNilConst(cy) || ValueOrigin(cx) != ssa.Value(par) {
+			return
+		}
+		for _, ref := range *bo.Referrers() {
+			ifi, isIf := ref.(*ssa.If)
+			if !isIf {
+				continue
+			}
+			nilSucc := ifi.Block().Succs[0]
+			if bo.Op == token.NEQ {
+				nilSucc = ifi.Block().Succs[1]
+			}
+			reach := ReachableFrom(nilSucc)
+			reach[nilSucc] = true
+			allFail, n := true, 0
+			for rb := range reach {
+				if len(rb.Instrs) == 0 {
+					continue
+				}
+				ret, ok := rb.Instrs[len(rb.Instrs)-1].(*ssa.Return)
+				if !ok {
+					continue
+				}
+				n++
+				if len(ret.Results) == 0 || !isErrType(ret.Results[len(ret.Results)-1].Type()) || IsNilConst(ret.Results[len(ret.Results)-1]) {
+					allFail = false
+				}
+			}
+			// the test must come first: it dominates every other use of the parameter
+			if allFail && n > 0 && ifi.Block() == fn.Blocks[0] {
 				found = true
 			}
 		}
